@@ -68,8 +68,16 @@ def z_abs(y, mo, d, h, mi, s, ms):
     return z3.ToReal(86400 * (z_dby(y) + z_dbm(mo, y) + d - 1) + 3600 * h + 60 * mi + s) + z3.ToReal(ms) / 1000
 
 
+ABSTIME = z3.Function("abstime", *([z3.IntSort()] * 7 + [z3.RealSort()]))
+
+
 def sf_abs(ex, st, t):
-    return vfloat(z_abs(*fields(ex, st, t)))
+    """epoch seconds of a timestamp: the closed form inside the proofs of ObsTime's own methods, an opaque
+    function of the seven fields everywhere else (callers only need that it is a function of the fields)"""
+    top = ex.ctx.top_spec
+    if top is None or top.qual.startswith(M):
+        return vfloat(z_abs(*fields(ex, st, t)))
+    return vfloat(ABSTIME(*fields(ex, st, t)))
 
 
 def sf_samefields(ex, st, a, b):
